@@ -3,9 +3,16 @@
 //! Space: every text of ≤ L bytes over {"a", "é"} (2-byte char), split into ≤ 3 fragments in
 //! every way (empty fragments included; a `Display` impl that calls `write_str` once per
 //! fragment), × every buffer size 0..=len+2, buffer embedded between guard bytes.
-//! Oracle (the statement): guards intact; `Ok` ⇒ text + NUL written, `n == len + 1`… the code
-//! reports the number of bytes *including* the NUL on success; `Err` ⇒ `n == len + 1` (the size
-//! needed). Exactly one of the two happens, decided by `size >= len + 1`.
+//! Oracle (the statement): guards intact; `Ok` ⇒ text + NUL written and "its length" reported;
+//! `Err` ⇒ `n == len + 1` (exactly the size needed). Exactly one of the two happens, decided by
+//! `size >= len + 1`.
+//!
+//! What "its length" means on success: the statement does not say whether the NUL is counted. The
+//! doc comment of `write_c_str` says "the number of bytes written, less the null terminator"
+//! (= len); the code and the crate's own unit test report len + 1 (text + NUL). Both readings
+//! satisfy the statement, so the check accepts either — but the same one for every input (a length
+//! that is sometimes with and sometimes without the NUL is not "its length"). The convention seen is
+//! written to the evidence (`ok_n_convention`).
 
 use core::{ffi::c_char, fmt, mem::MaybeUninit};
 
@@ -45,6 +52,18 @@ pub fn run(args: &Args) {
         frontier = next;
     }
     let mut distinct = std::collections::BTreeSet::new();
+    if let Some(r) = crate::util::load_replay(args) {
+        let text = r["text"].as_str().unwrap_or_else(|| mcx::machinery_error("C47 replay: no text")).to_string();
+        let frs: Vec<String> = r["fragments"].as_array().map(|a| a.iter().map(|f| f.as_str().unwrap_or("").to_string()).collect()).unwrap_or_default();
+        let frs: Vec<&str> = frs.iter().map(|s| s.as_str()).collect();
+        let size = r["size"].as_u64().unwrap_or(0) as usize;
+        one(&mut rep, &text, &frs, size, &mut distinct);
+        rep.set("distinct_nontrivial", distinct.len() as u64);
+        rep.set("rule", "replay of one recorded case");
+        rep.set("exhaustive", false);
+        rep.sample(r);
+        rep.finish();
+    }
     for text in &texts {
         let chars: Vec<usize> = text.char_indices().map(|(i, _)| i).chain([text.len()]).collect();
         // all ways to choose (max_frags-1) non-decreasing cut points among char boundaries
@@ -92,6 +111,15 @@ pub fn run(args: &Args) {
     rep.set("exhaustive", true);
     let ev = rep.counter("evaluations");
     let _ = ev;
+    let (a, b) = (rep.counter("ok_n_is_len"), rep.counter("ok_n_is_len_plus_nul"));
+    if a > 0 && b > 0 {
+        rep.violation(
+            "Ok reports its length inconsistently",
+            format!("on success n == len for {a} cases and n == len + 1 for {b} cases"),
+            json!({"ok_n_is_len": a, "ok_n_is_len_plus_nul": b}),
+        );
+    }
+    rep.set("ok_n_convention", if b > 0 { "len + 1 (text and NUL)" } else { "len (text without NUL)" });
     rep.require_nonzero("ok_results");
     rep.require_nonzero("too_small_results");
     rep.finish()
@@ -121,7 +149,7 @@ fn one(rep: &mut Report, text: &str, frs: &[&str], size: usize, distinct: &mut s
         return;
     }
     let need = text.len() + 1;
-    match res {
+    match &res {
         Err(p) => rep.violation(key(), format!("panic: {p}"), replay()),
         Ok(Ok(())) => {
             rep.count("ok_results", 1);
@@ -131,8 +159,8 @@ fn one(rep: &mut Report, text: &str, frs: &[&str], size: usize, distinct: &mut s
                 rep.violation(key(), format!("Ok with buffer {size} < needed {need}"), replay());
             } else if &buf[..text.len()] != text.as_bytes() || buf[text.len()] != 0 {
                 rep.violation(key(), format!("Ok but buffer holds {:?}", &buf[..need]), replay());
-            } else if n != need {
-                rep.violation(key(), format!("Ok but reported n={n}, expected {need}"), replay());
+            } else if n != text.len() && n != need {
+                rep.violation(key(), format!("Ok but reported n={n}, expected {} (text) or {need} (text + NUL)", text.len()), replay());
             } else if buf[need..].iter().any(|&b| b != FILL) {
                 rep.violation(key(), "bytes after the NUL were modified".to_string(), replay());
             }
@@ -149,6 +177,13 @@ fn one(rep: &mut Report, text: &str, frs: &[&str], size: usize, distinct: &mut s
         Ok(Err(e)) => {
             rep.outcome("other_err", 1);
             rep.violation(key(), format!("unexpected error {e:?}"), replay())
+        }
+    }
+    if let Ok(Ok(())) = res {
+        if n == text.len() {
+            rep.count("ok_n_is_len", 1);
+        } else if n == need {
+            rep.count("ok_n_is_len_plus_nul", 1);
         }
     }
     if size == text.len() && frs.len() == 2 {
